@@ -418,6 +418,8 @@ func (t *tlcreate) do(cs *connState, uid UID) (*rlcreate, error) {
 		return nil, err
 	}
 
+	verifPoint("tlcreate:registered-not-inserted")
+
 	// Replace the fid reference.
 	cs.InsertFID(t.fid, newRef)
 
